@@ -295,8 +295,10 @@ def _excluded():
 
 @st.composite
 def admt_strategy(draw):
-    y_free = _excluded()
-    return {"grid": draw(grid_strategy()), "psi": draw(psi_strategy(6.0, 0.2, y_free)), "aniso": _anisotropy(draw),
+    aniso = _anisotropy(draw)
+    # finite / annihilates-constants hold for every flux map even with the finding open; only the anisotropy-1 identity fails
+    y_free = _excluded() and float(aniso) == 1.0
+    return {"grid": draw(grid_strategy()), "psi": draw(psi_strategy(6.0, 0.2, y_free)), "aniso": aniso,
             "const": draw(_signed(0.1, 100.0))}
 
 
@@ -379,7 +381,7 @@ def run_admt(case, ctx):
     iso = float(aniso) == 1.0
     cls = _psi_class(case["psi"])
     ctx.label("%s:%s" % ("iso" if iso else "aniso", cls), "psi:" + case["psi"]["kind"])
-    if _excluded():
+    if _excluded() and iso:
         ctx.label("excluded_known:psi_depends_on_y")
     ctx.nt(cls == "curved")
     ops = _operators(ctx, grid, n)
@@ -450,7 +452,7 @@ def run_refine(case, ctx):
 
 
 SUBCHECKS = {
-    "stencils": Given(stencil_strategy, run_stencils, quick=1200, thorough=40000),
-    "admt": Given(admt_strategy, run_admt, quick=1200, thorough=40000),
-    "refine": Given(refine_strategy, run_refine, quick=160, thorough=4000),
+    "stencils": Given(stencil_strategy, run_stencils, quick=1200, thorough=30000),
+    "admt": Given(admt_strategy, run_admt, quick=1200, thorough=30000),
+    "refine": Given(refine_strategy, run_refine, quick=160, thorough=2400),
 }
